@@ -12,14 +12,14 @@ is documented.  Generators draw only inside this table.
 | dz | compartments 0.05-0.2 m (the deepening loop only extends compartments < 0.25 m) | read_model_parameters |
 | custom layer | th_dry < wp < fc < sat (fc == sat makes the drainage characteristic 0/0; no built-in soil has it), Ksat > 0, penetrability 0-100 | Notebook 1 |
 | texture | sand+clay <= 95, clay <= 60, OM 0.5-5 (Saxton-Rawls calibration range) | Soil.calculate_soil_hydraulic_properties docstring |
-| z_cn, z_germ, z_top, evap_z_* | positive depths inside the profile | Notebook 1 soil table |
+| z_cn, z_germ, z_top, evap_z_min, evap_z_max | positive depths inside the profile; evap_z_max >= evap_z_min (equal = a fixed evaporation layer) | Notebook 1 soil table |
 | initial water content | Prop in {WP,FC,SAT}; Pct 0-100; Num in [WP, SAT] of the layer; Layer method: one value per soil layer; Depth method: ascending depths | Notebook 1, property C03 ("between wilting point and saturation") |
 | irrigation | method 0-5; SMT 4 values 0-100; interval >= 1; MaxIrr >= 0; AppEff 50-100; WetSurf 10-100; schedule dates unique, depths >= 0 | IrrigationManagement docstring; irrigation.py assert Irr >= 0 |
-| field management | mulch_pct 0-100, f_mulch 0-1, z_bund >= 0 (m), bund_water >= 0 (mm), CN*(1+pct/100) in [20, 98] | Notebook 1 table; property C02 ("effective curve number <= 100") |
+| field management | mulch_pct 0-100, f_mulch 0-1, z_bund >= 0 (m; including heights of a millimetre or less), bund_water >= 0 (mm), CN*(1+pct/100) in [20, 98] | Notebook 1 table; property C02 ("effective curve number <= 100") |
 | groundwater | dates 'YYYYMMDD', depths > 0 m; first observation on the start date; 'Variable' also has one on the end date and may list its observations in any order (they are date-depth pairs; 'Constant' tables are listed chronologically) | Notebook 1 ("linearly interpolated between these dates") |
 | CO2 | default file, constant concentration, or a yearly series covering the window | CO2 docstring |
 | window | start < end, both 'YYYY/MM/DD', covered by the weather table, <= 580 years | core.py setters, read_weather_inputs, read_clocks_parameters |
-| weather | MinTemp <= MaxTemp, Precipitation >= 0, ReferenceET >= 0.1 (prepare_weather clips) | utils/prepare_weather.py |
+| weather | MinTemp <= MaxTemp, Precipitation >= 0, ReferenceET > 0: the synthetic records keep to the floor of 0.1 that prepare_weather applies, injected calm-day events go down to 0.02 (tables built by hand, which the model accepts) | utils/prepare_weather.py, AquaCropModel docstring |
 
 Deliberately outside the domain (no document promises them): process_outputs=True followed by
 more steps; run_model after termination; ET0 <= 0; negative water-table depth; duplicate schedule
